@@ -302,6 +302,17 @@ def build():
     defs.append(("name_write_max", "N", "%d%%N" % num(m.group(1))))
     one(r"self\.zonefile\.buf\.require_token\(\)\?;\s*if\s+self\.zonefile\.buf\.skip_at_token\(\)\?\s*\{\s*return\s+RelativeName::empty_bytes\(\)\s*\.chain\(self\.zonefile\.origin\(\)\?\)", body, "scan_name free standing @")
     defs.append(("scan_name_at_is_origin", "bool", "true"))
+    # next_ascii_symbol: the fast path of scan_octets / convert_label / convert_charstr
+    body = fn_body(inp, "next_ascii_symbol", after="impl SourceBuf")
+    m = one(r"ItemCat::Unquoted\s*=>\s*\{\s*if\s+ch\s*<\s*(0x[0-9A-Fa-f]+)\s*\|\|\s*ch\s*>\s*(0x[0-9A-Fa-f]+)((?:\s*\|\|\s*ch\s*==\s*b'" + LIT + r"')+)\s*\{\s*return\s+Ok\(None\);", body, "next_ascii_symbol unquoted")
+    defs += [("fast_lo", "N", "%d%%N" % num(m.group(1))), ("fast_hi", "N", "%d%%N" % num(m.group(2))),
+             ("fast_unquoted_excl", "list N", nlist([charlit(x) for x in re.findall(r"b'(" + LIT + r")'", m.group(3))]))]
+    m = one(r"ItemCat::Quoted\s*=>\s*\{\s*if\s+ch\s*==\s*b'\"'\s*\{\s*self\.start\s*\+=\s*1;\s*self\.cat\s*=\s*ItemCat::None;\s*return\s+Ok\(None\);\s*\}\s*else\s+if\s+ch\s*<\s*(0x[0-9A-Fa-f]+)\s*\|\|\s*ch\s*>\s*(0x[0-9A-Fa-f]+)\s*\|\|\s*ch\s*==\s*b'\\\\'\s*\{\s*return\s+Ok\(None\);", body, "next_ascii_symbol quoted")
+    if (num(m.group(1)), num(m.group(2))) != (0x21, 0x7F):
+        raise GenError("next_ascii_symbol quoted range changed")
+    body = fn_body(inp, "scan_octets", after="impl Scanner for EntryScanner")
+    one(r"let\s+is_quoted\s*=\s*self\.zonefile\.buf\.cat\s*==\s*ItemCat::Quoted;\s*while\s+self\.zonefile\.buf\.next_ascii_symbol\(\)\?\.is_some\(\)\s*\{\}\s*if\s+self\.zonefile\.buf\.cat\s*==\s*ItemCat::None\s*\{", body, "scan_octets fast phase")
+    one(r"while\s+let\s+Some\(sym\)\s*=\s*self\.zonefile\.buf\.next_symbol\(\)\?\s*\{\s*self\.zonefile\.buf\.buf\[write\]\s*=\s*sym\.into_octet\(\)\?;", body, "scan_octets slow phase")
     body = fn_body(inp, "scan_charstr_entry", after="impl Scanner for EntryScanner")
     one(r"let\s+mut\s+write\s*=\s*0;\s*loop\s*\{\s*self\.convert_charstr\(&mut write\)\?;\s*if\s+self\.zonefile\.buf\.is_line_feed\(\)\s*\{\s*break;", body, "scan_charstr_entry reads char-strings up to the line feed")
     body = fn_body(inp, "convert_charstr", after="impl EntryScanner")
